@@ -1414,7 +1414,7 @@ def run(ctx):
         from props import c03_aw
         acs = c03_aw.a_cases()
         ctx.res.extra['autowrite_stream_structured_sessions_enumerated'] = len(acs)
-        awork += c03_aw.a_quick_sample(acs, rng, 4) if ctx.quick else acs
+        awork += c03_aw.a_quick_sample(acs, rng, 2) if ctx.quick else acs
         awork += c03_aw.a_random(rng.fork('autowrite sessions'), 120 if ctx.quick else 3000)
         bases = base_cases()
         dry = vlib.pmap(lambda c: run_case(vi, c, []), bases)
